@@ -33,7 +33,7 @@ Definition p25 : str := [69;78;68]. (* "END" *)
 Definition p26 : str := [82;69;67;79;86;69;82]. (* "RECOVER" *)
 Definition p27 : str := [71;79;95;69;82;82;79;82]. (* "GO_ERROR" *)
 Definition p28 : str := [66;79;71;85;83]. (* "BOGUS" *)
-(* 160 roots, 1030 tree nodes, 856 leaves (complete executions) *)
+(* 160 roots, 930 tree nodes, 776 leaves (complete executions) *)
 Definition fmq_table : list (root * otree) := [
   ((Root 1 false p0 p1 p2 1 p3),
    Node (EI p4 p3 p2 1) p3 [(p3, false, Leaf p1 true p3); (p3, false, Leaf p1 true p3); (p3, false, Leaf p1 true p3); (p3, true, Leaf [] true p3); (p3, false, Leaf p1 true p3)]);
@@ -76,9 +76,9 @@ Definition fmq_table : list (root * otree) := [
   ((Root 1 true p10 p8 p5 1 p9),
    Node (EI p10 p9 p6 1) p9 [(p9, false, Leaf p8 true p9); (p9, false, Leaf p8 true p9); (p9, false, Leaf p8 true p9); (p9, true, Leaf [] true p9); (p9, false, Leaf p8 true p9)]);
   ((Root 1 false p11 p1 p5 1 p3),
-   Node (EI p12 p3 p13 1) p3 [(p13, false, Node (EI p14 p13 p15 0) p13 [(p15, false, Node (EI p16 p15 p17 0) p15 [(p17, false, Node (EI p18 p17 p19 0) p17 [(p19, false, Node (EI p20 p19 p6 0) p19 [(p6, false, Leaf p5 false p6); (p19, false, Node (EI p21 p19 p3 0) p19 [(p3, false, Leaf p1 true p3); (p19, false, Leaf [] true p19); (p7, false, Leaf p7 true p7); (p19, true, Leaf [] true p19); (p3, true, Leaf [] true p3)]); (p7, false, Leaf p7 true p7); (p19, true, Leaf [] true p19); (p6, true, Leaf [] true p6)]); (p17, false, Node (EI p21 p17 p3 0) p17 [(p3, false, Node (EI p20 p19 p6 0) p3 [(p3, false, Leaf p1 true p3); (p3, false, Leaf p1 true p3); (p3, false, Leaf p1 true p3); (p3, true, Leaf [] true p3); (p3, false, Leaf p1 true p3)]); (p17, false, Node (EI p20 p19 p6 0) p17 [(p17, false, Leaf [] true p17); (p17, false, Leaf [] true p17); (p17, false, Leaf [] true p17); (p17, true, Leaf [] true p17); (p17, false, Leaf [] true p17)]); (p7, false, Node (EI p20 p19 p6 0) p7 [(p7, false, Leaf p7 true p7); (p7, false, Leaf p7 true p7); (p7, false, Leaf p7 true p7); (p7, true, Leaf [] true p7); (p7, false, Leaf p7 true p7)]); (p17, true, Node (EI p20 p19 p6 0) p17 [(p17, false, Leaf [] true p17); (p17, false, Leaf [] true p17); (p17, false, Leaf [] true p17); (p17, true, Leaf [] true p17); (p17, false, Leaf [] true p17)]); (p3, true, Node (EI p20 p19 p6 0) p3 [(p3, false, Leaf p1 true p3); (p3, false, Leaf p1 true p3); (p3, false, Leaf p1 true p3); (p3, true, Leaf [] true p3); (p3, false, Leaf p1 true p3)])]); (p7, false, Leaf p7 true p7); (p17, true, Leaf [] true p17); (p19, true, Leaf [] true p19)]); (p15, false, Node (EI p21 p15 p3 0) p15 [(p3, false, Node (EI p18 p17 p19 0) p3 [(p3, false, Leaf p1 true p3); (p3, false, Leaf p1 true p3); (p3, false, Leaf p1 true p3); (p3, true, Leaf [] true p3); (p3, false, Leaf p1 true p3)]); (p15, false, Node (EI p18 p17 p19 0) p15 [(p15, false, Leaf [] true p15); (p15, false, Leaf [] true p15); (p15, false, Leaf [] true p15); (p15, true, Leaf [] true p15); (p15, false, Leaf [] true p15)]); (p7, false, Node (EI p18 p17 p19 0) p7 [(p7, false, Leaf p7 true p7); (p7, false, Leaf p7 true p7); (p7, false, Leaf p7 true p7); (p7, true, Leaf [] true p7); (p7, false, Leaf p7 true p7)]); (p15, true, Node (EI p18 p17 p19 0) p15 [(p15, false, Leaf [] true p15); (p15, false, Leaf [] true p15); (p15, false, Leaf [] true p15); (p15, true, Leaf [] true p15); (p15, false, Leaf [] true p15)]); (p3, true, Node (EI p18 p17 p19 0) p3 [(p3, false, Leaf p1 true p3); (p3, false, Leaf p1 true p3); (p3, false, Leaf p1 true p3); (p3, true, Leaf [] true p3); (p3, false, Leaf p1 true p3)])]); (p7, false, Leaf p7 true p7); (p15, true, Leaf [] true p15); (p17, true, Leaf [] true p17)]); (p13, false, Leaf [] true p13); (p7, false, Leaf p7 true p7); (p13, true, Leaf [] true p13); (p15, true, Leaf [] true p15)]); (p3, false, Leaf p1 true p3); (p7, false, Leaf p7 true p7); (p3, true, Leaf [] true p3); (p13, true, Leaf [] true p13)]);
+   Node (EI p12 p3 p13 1) p3 [(p13, false, Node (EI p14 p13 p15 0) p13 [(p15, false, Node (EI p16 p15 p17 0) p15 [(p17, false, Node (EI p18 p17 p19 0) p17 [(p19, false, Node (EI p20 p19 p6 0) p19 [(p6, false, Leaf p5 false p6); (p19, false, Node (EI p21 p19 p3 0) p19 [(p3, false, Leaf p1 true p3); (p19, false, Leaf [] true p19); (p7, false, Leaf p7 true p7); (p19, true, Leaf [] true p19); (p3, true, Leaf [] true p3)]); (p7, false, Leaf p7 true p7); (p19, true, Leaf [] true p19); (p6, true, Leaf [] true p6)]); (p17, false, Node (EI p21 p17 p3 0) p17 [(p3, false, Leaf p1 true p3); (p17, false, Leaf [] true p17); (p7, false, Leaf p7 true p7); (p17, true, Leaf [] true p17); (p3, true, Leaf [] true p3)]); (p7, false, Leaf p7 true p7); (p17, true, Leaf [] true p17); (p19, true, Leaf [] true p19)]); (p15, false, Node (EI p21 p15 p3 0) p15 [(p3, false, Leaf p1 true p3); (p15, false, Leaf [] true p15); (p7, false, Leaf p7 true p7); (p15, true, Leaf [] true p15); (p3, true, Leaf [] true p3)]); (p7, false, Leaf p7 true p7); (p15, true, Leaf [] true p15); (p17, true, Leaf [] true p17)]); (p13, false, Leaf [] true p13); (p7, false, Leaf p7 true p7); (p13, true, Leaf [] true p13); (p15, true, Leaf [] true p15)]); (p3, false, Leaf p1 true p3); (p7, false, Leaf p7 true p7); (p3, true, Leaf [] true p3); (p13, true, Leaf [] true p13)]);
   ((Root 1 true p11 p1 p5 1 p3),
-   Node (EI p12 p3 p13 1) p3 [(p13, false, Node (EI p14 p13 p15 0) p13 [(p15, false, Node (EI p16 p15 p17 0) p15 [(p17, false, Node (EI p18 p17 p19 0) p17 [(p19, false, Node (EI p20 p19 p6 0) p19 [(p6, false, Leaf p5 false p6); (p19, false, Node (EI p21 p19 p3 0) p19 [(p3, false, Leaf p1 true p3); (p19, false, Leaf [] true p19); (p7, false, Leaf p7 true p7); (p19, true, Leaf [] true p19); (p3, true, Leaf [] true p3)]); (p7, false, Leaf p7 true p7); (p19, true, Leaf [] true p19); (p6, true, Leaf [] true p6)]); (p17, false, Node (EI p21 p17 p3 0) p17 [(p3, false, Node (EI p20 p19 p6 0) p3 [(p3, true, Leaf [] true p3); (p3, true, Leaf [] true p3); (p3, true, Leaf [] true p3); (p3, true, Leaf [] true p3); (p3, true, Leaf [] true p3)]); (p17, false, Node (EI p20 p19 p6 0) p17 [(p17, true, Leaf [] true p17); (p17, true, Leaf [] true p17); (p17, true, Leaf [] true p17); (p17, true, Leaf [] true p17); (p17, true, Leaf [] true p17)]); (p7, false, Node (EI p20 p19 p6 0) p7 [(p7, true, Leaf [] true p7); (p7, true, Leaf [] true p7); (p7, true, Leaf [] true p7); (p7, true, Leaf [] true p7); (p7, true, Leaf [] true p7)]); (p17, true, Node (EI p20 p19 p6 0) p17 [(p17, true, Leaf [] true p17); (p17, true, Leaf [] true p17); (p17, true, Leaf [] true p17); (p17, true, Leaf [] true p17); (p17, true, Leaf [] true p17)]); (p3, true, Node (EI p20 p19 p6 0) p3 [(p3, true, Leaf [] true p3); (p3, true, Leaf [] true p3); (p3, true, Leaf [] true p3); (p3, true, Leaf [] true p3); (p3, true, Leaf [] true p3)])]); (p7, false, Leaf p7 true p7); (p17, true, Leaf [] true p17); (p19, true, Leaf [] true p19)]); (p15, false, Node (EI p21 p15 p3 0) p15 [(p3, false, Node (EI p18 p17 p19 0) p3 [(p3, true, Leaf [] true p3); (p3, true, Leaf [] true p3); (p3, true, Leaf [] true p3); (p3, true, Leaf [] true p3); (p3, true, Leaf [] true p3)]); (p15, false, Node (EI p18 p17 p19 0) p15 [(p15, true, Leaf [] true p15); (p15, true, Leaf [] true p15); (p15, true, Leaf [] true p15); (p15, true, Leaf [] true p15); (p15, true, Leaf [] true p15)]); (p7, false, Node (EI p18 p17 p19 0) p7 [(p7, true, Leaf [] true p7); (p7, true, Leaf [] true p7); (p7, true, Leaf [] true p7); (p7, true, Leaf [] true p7); (p7, true, Leaf [] true p7)]); (p15, true, Node (EI p18 p17 p19 0) p15 [(p15, true, Leaf [] true p15); (p15, true, Leaf [] true p15); (p15, true, Leaf [] true p15); (p15, true, Leaf [] true p15); (p15, true, Leaf [] true p15)]); (p3, true, Node (EI p18 p17 p19 0) p3 [(p3, true, Leaf [] true p3); (p3, true, Leaf [] true p3); (p3, true, Leaf [] true p3); (p3, true, Leaf [] true p3); (p3, true, Leaf [] true p3)])]); (p7, false, Leaf p7 true p7); (p15, true, Leaf [] true p15); (p17, true, Leaf [] true p17)]); (p13, false, Leaf [] true p13); (p7, false, Leaf p7 true p7); (p13, true, Leaf [] true p13); (p15, true, Leaf [] true p15)]); (p3, false, Leaf p1 true p3); (p7, false, Leaf p7 true p7); (p3, true, Leaf [] true p3); (p13, true, Leaf [] true p13)]);
+   Node (EI p12 p3 p13 1) p3 [(p13, false, Node (EI p14 p13 p15 0) p13 [(p15, false, Node (EI p16 p15 p17 0) p15 [(p17, false, Node (EI p18 p17 p19 0) p17 [(p19, false, Node (EI p20 p19 p6 0) p19 [(p6, false, Leaf p5 false p6); (p19, false, Node (EI p21 p19 p3 0) p19 [(p3, false, Leaf p1 true p3); (p19, false, Leaf [] true p19); (p7, false, Leaf p7 true p7); (p19, true, Leaf [] true p19); (p3, true, Leaf [] true p3)]); (p7, false, Leaf p7 true p7); (p19, true, Leaf [] true p19); (p6, true, Leaf [] true p6)]); (p17, false, Node (EI p21 p17 p3 0) p17 [(p3, false, Leaf p1 true p3); (p17, false, Leaf [] true p17); (p7, false, Leaf p7 true p7); (p17, true, Leaf [] true p17); (p3, true, Leaf [] true p3)]); (p7, false, Leaf p7 true p7); (p17, true, Leaf [] true p17); (p19, true, Leaf [] true p19)]); (p15, false, Node (EI p21 p15 p3 0) p15 [(p3, false, Leaf p1 true p3); (p15, false, Leaf [] true p15); (p7, false, Leaf p7 true p7); (p15, true, Leaf [] true p15); (p3, true, Leaf [] true p3)]); (p7, false, Leaf p7 true p7); (p15, true, Leaf [] true p15); (p17, true, Leaf [] true p17)]); (p13, false, Leaf [] true p13); (p7, false, Leaf p7 true p7); (p13, true, Leaf [] true p13); (p15, true, Leaf [] true p15)]); (p3, false, Leaf p1 true p3); (p7, false, Leaf p7 true p7); (p3, true, Leaf [] true p3); (p13, true, Leaf [] true p13)]);
   ((Root 1 false p11 p5 p5 1 p6),
    Node (EI p12 p6 p13 1) p6 [(p6, false, Leaf p5 true p6); (p6, false, Leaf p5 true p6); (p6, false, Leaf p5 true p6); (p6, true, Leaf [] true p6); (p6, false, Leaf p5 true p6)]);
   ((Root 1 true p11 p5 p5 1 p6),
@@ -120,9 +120,9 @@ Definition fmq_table : list (root * otree) := [
   ((Root 1 true p24 p1 p8 1 p3),
    Node (EI p25 p3 p9 1) p3 [(p9, false, Leaf p8 false p9); (p3, false, Leaf p1 true p3); (p7, false, Leaf p7 true p7); (p3, true, Leaf [] true p3); (p9, true, Leaf [] true p9)]);
   ((Root 1 false p24 p5 p8 1 p6),
-   Node (EI p23 p6 p19 0) p6 [(p19, false, Node (EI p21 p19 p9 1) p19 [(p3, false, Node (EI p25 p6 p9 1) p3 [(p9, false, Leaf p8 false p9); (p3, false, Leaf p1 true p3); (p7, false, Leaf p7 true p7); (p3, true, Leaf [] true p3); (p9, true, Leaf [] true p9)]); (p19, false, Node (EI p20 p19 p6 0) p19 [(p6, false, Leaf p5 true p6); (p19, false, Leaf [] true p19); (p7, false, Leaf p7 true p7); (p19, true, Leaf [] true p19); (p6, true, Leaf [] true p6)]); (p7, false, Leaf p7 true p7); (p19, true, Leaf [] true p19); (p3, true, Leaf [] true p3)]); (p6, false, Leaf p5 true p6); (p7, false, Leaf p7 true p7); (p6, true, Leaf [] true p6); (p19, true, Leaf [] true p19)]);
+   Node (EI p23 p6 p19 0) p6 [(p19, false, Node (EI p21 p19 p3 1) p19 [(p3, false, Node (EI p25 p3 p9 1) p3 [(p9, false, Leaf p8 false p9); (p3, false, Leaf p1 true p3); (p7, false, Leaf p7 true p7); (p3, true, Leaf [] true p3); (p9, true, Leaf [] true p9)]); (p19, false, Node (EI p20 p19 p6 0) p19 [(p6, false, Leaf p5 true p6); (p19, false, Leaf [] true p19); (p7, false, Leaf p7 true p7); (p19, true, Leaf [] true p19); (p6, true, Leaf [] true p6)]); (p7, false, Leaf p7 true p7); (p19, true, Leaf [] true p19); (p3, true, Leaf [] true p3)]); (p6, false, Leaf p5 true p6); (p7, false, Leaf p7 true p7); (p6, true, Leaf [] true p6); (p19, true, Leaf [] true p19)]);
   ((Root 1 true p24 p5 p8 1 p6),
-   Node (EI p23 p6 p19 0) p6 [(p19, false, Node (EI p21 p19 p9 1) p19 [(p3, false, Node (EI p25 p6 p9 1) p3 [(p3, true, Leaf [] true p3); (p3, true, Leaf [] true p3); (p3, true, Leaf [] true p3); (p3, true, Leaf [] true p3); (p3, true, Leaf [] true p3)]); (p19, false, Node (EI p20 p19 p6 0) p19 [(p6, false, Leaf p5 true p6); (p19, false, Leaf [] true p19); (p7, false, Leaf p7 true p7); (p19, true, Leaf [] true p19); (p6, true, Leaf [] true p6)]); (p7, false, Leaf p7 true p7); (p19, true, Leaf [] true p19); (p3, true, Leaf [] true p3)]); (p6, false, Leaf p5 true p6); (p7, false, Leaf p7 true p7); (p6, true, Leaf [] true p6); (p19, true, Leaf [] true p19)]);
+   Node (EI p23 p6 p19 0) p6 [(p19, false, Node (EI p21 p19 p3 1) p19 [(p3, false, Node (EI p25 p3 p9 1) p3 [(p9, false, Leaf p8 false p9); (p3, false, Leaf p1 true p3); (p7, false, Leaf p7 true p7); (p3, true, Leaf [] true p3); (p9, true, Leaf [] true p9)]); (p19, false, Node (EI p20 p19 p6 0) p19 [(p6, false, Leaf p5 true p6); (p19, false, Leaf [] true p19); (p7, false, Leaf p7 true p7); (p19, true, Leaf [] true p19); (p6, true, Leaf [] true p6)]); (p7, false, Leaf p7 true p7); (p19, true, Leaf [] true p19); (p3, true, Leaf [] true p3)]); (p6, false, Leaf p5 true p6); (p7, false, Leaf p7 true p7); (p6, true, Leaf [] true p6); (p19, true, Leaf [] true p19)]);
   ((Root 1 false p24 p2 p8 1 p2),
    Node (EI p25 p2 p9 1) p2 [(p2, false, Leaf p2 true p2); (p2, false, Leaf p2 true p2); (p2, false, Leaf p2 true p2); (p2, true, Leaf [] true p2); (p2, false, Leaf p2 true p2)]);
   ((Root 1 true p24 p2 p8 1 p2),
@@ -136,45 +136,45 @@ Definition fmq_table : list (root * otree) := [
   ((Root 1 true p24 p8 p8 1 p9),
    Node (EI p25 p9 p9 1) p9 [(p9, false, Leaf p8 false p9); (p9, false, Leaf p8 false p9); (p9, false, Leaf p8 false p9); (p9, true, Leaf [] true p9); (p9, false, Leaf p8 false p9)]);
   ((Root 1 false p26 p1 p1 1 p3),
-   Leaf p1 false p3);
+   Leaf p1 true p3);
   ((Root 1 true p26 p1 p1 1 p3),
-   Leaf p1 false p3);
+   Leaf p1 true p3);
   ((Root 1 false p26 p5 p1 1 p6),
-   Leaf p5 false p6);
+   Leaf p5 true p6);
   ((Root 1 true p26 p5 p1 1 p6),
-   Leaf p5 false p6);
+   Leaf p5 true p6);
   ((Root 1 false p26 p2 p1 1 p2),
-   Leaf p2 false p2);
+   Leaf p2 true p2);
   ((Root 1 true p26 p2 p1 1 p2),
-   Leaf p2 false p2);
+   Leaf p2 true p2);
   ((Root 1 false p26 p7 p1 1 p7),
-   Leaf p7 false p7);
+   Leaf p7 true p7);
   ((Root 1 true p26 p7 p1 1 p7),
-   Leaf p7 false p7);
+   Leaf p7 true p7);
   ((Root 1 false p26 p8 p1 1 p9),
-   Leaf p8 false p9);
+   Leaf p8 true p9);
   ((Root 1 true p26 p8 p1 1 p9),
-   Leaf p8 false p9);
+   Leaf p8 true p9);
   ((Root 1 false p27 p1 p7 1 p3),
-   Leaf p1 false p3);
+   Leaf p1 true p3);
   ((Root 1 true p27 p1 p7 1 p3),
-   Leaf p1 false p3);
+   Leaf p1 true p3);
   ((Root 1 false p27 p5 p7 1 p6),
-   Leaf p5 false p6);
+   Leaf p5 true p6);
   ((Root 1 true p27 p5 p7 1 p6),
-   Leaf p5 false p6);
+   Leaf p5 true p6);
   ((Root 1 false p27 p2 p7 1 p2),
-   Leaf p2 false p2);
+   Leaf p2 true p2);
   ((Root 1 true p27 p2 p7 1 p2),
-   Leaf p2 false p2);
+   Leaf p2 true p2);
   ((Root 1 false p27 p7 p7 1 p7),
-   Leaf p7 false p7);
+   Leaf p7 true p7);
   ((Root 1 true p27 p7 p7 1 p7),
-   Leaf p7 false p7);
+   Leaf p7 true p7);
   ((Root 1 false p27 p8 p7 1 p9),
-   Leaf p8 false p9);
+   Leaf p8 true p9);
   ((Root 1 true p27 p8 p7 1 p9),
-   Leaf p8 false p9);
+   Leaf p8 true p9);
   ((Root 1 false p28 p1 p1 1 p3),
    Leaf [] false p3);
   ((Root 1 true p28 p1 p1 1 p3),
